@@ -57,8 +57,8 @@ CFG = P(
     asan_options="malloc_context_size=3:quarantine_size_mb=16:thread_local_quarantine_size_kb=64",
     rule="a transition (BFS) or sequence (un-merged run) is non-trivial when the container operated on holds at least two entries at that point, i.e. when recency order decides the outcome",
     bounds={
-        "quick": "fixpoint of the merged search for LRUSet (two instances with swap, 3 keys, sizes {0,1,2}: 226^2 list pairs) and LRUMap (M1: one instance, sizes {0,1,2}, values {10,11}; M2: two instances with swap, sizes {1,2}); un-merged: all LRUSet sequences of length <= 4 over the full one-instance alphabet, all LRUMap sequences of length <= 3 (full alphabet) and <= 4 (31..34-letter alphabet)",
-        "thorough": "the same fixpoints; un-merged: all LRUSet sequences of length <= 4 (full one-instance alphabet), <= 5 (33 letters) and <= 7 (12 letters incl. swap), all LRUMap sequences of length <= 3 (full), <= 5 (31..34 letters) and <= 7 (13 letters incl. swap)",
+        "quick": "fixpoint of the merged search for LRUSet (two instances with swap, 3 keys, sizes {0,1,2}: 226^2 list pairs) and LRUMap (M1: one instance, sizes {0,1,2}, values {10,11}; M2: two instances with swap, sizes {1,2}); un-merged: all LRUSet sequences of length <= 4 over the full one-instance alphabet, all LRUMap sequences of length <= 3 (full alphabet) and <= 4 (30..34-letter alphabet)",
+        "thorough": "the same fixpoints; un-merged: all LRUSet sequences of length <= 4 (full one-instance alphabet), <= 5 (33 letters) and <= 7 (12 letters incl. swap), all LRUMap sequences of length <= 3 (full), <= 5 (30..34 letters) and <= 7 (13 letters incl. swap)",
     },
     explanation="E-BFS: states are operation histories replayed on fresh LRUSet/LRUMap objects, identified by the lists read through the real head/next links plus total_size; the finite abstract space is searched to a fixpoint; the reference is a recency list whose refresh rules are the documented ones; un-merged sequence runs validate the merging",
     assumptions=[
